@@ -226,7 +226,7 @@ func genAdmitCase(r *Rng, i int, k AdmitKnobs) *AdmitCase {
 		a.Obj = ObjSpec{Kind: "namespace", NSName: pick(r, []string{a.NS, a.NS, "othername"}), Labels: newL}
 		if a.Op == admissionv1.Update {
 			oldL := genLabels(r)
-			switch r.Intn(5) {
+			switch r.Intn(8) {
 			case 0:
 				oldL = newL
 			case 1: // same errors, different valid labels
@@ -235,6 +235,42 @@ func genAdmitCase(r *Rng, i int, k AdmitKnobs) *AdmitCase {
 					oldL[kk] = v
 				}
 				oldL["unrelated2"] = "z"
+			case 2, 3, 4: // related error sets: the old labels are the new ones with several labels broken, or the other way
+				// round (subset / superset / overlapping sets of invalid labels, the kept ones byte for byte)
+				base := map[string]string{}
+				for kk, v := range newL {
+					base[kk] = v
+				}
+				broken := map[string]string{}
+				for kk, v := range base {
+					broken[kk] = v
+				}
+				for i, kk := range labelKeys {
+					if r.Chance(1, 2) {
+						if i%2 == 0 {
+							broken[kk] = pick(r, malformedLevels)
+						} else {
+							broken[kk] = pick(r, malformedVersions)
+						}
+					}
+				}
+				tag("ns.relatedErrors")
+				if r.Bool() {
+					oldL = broken // the update repairs some labels and leaves the other invalid ones as they were
+				} else {
+					oldL, newL = base, broken
+					a.Obj.Labels = newL
+				}
+				if r.Chance(1, 2) { // and one more label both sides agree on being invalid
+					kk := pick(r, labelKeys)
+					nl := map[string]string{}
+					for k2, v := range newL {
+						nl[k2] = v
+					}
+					newL = nl
+					oldL[kk], newL[kk] = "bogus", "bogus"
+					a.Obj.Labels = newL
+				}
 			}
 			a.Old = ObjSpec{Kind: "namespace", NSName: a.Obj.NSName, Labels: oldL}
 		}
